@@ -552,8 +552,8 @@ CORE_CFGS = {   # property -> (quick configs, thorough configs) of MPBCore.tla
     "C13": (["write", "write2"], ["write", "write2", "two"]),
     "C14": (["none", "manual", "listen"], ["shut", "none", "manual", "manualsync", "listen", "listenshut"]),
     "C16": (["q0", "rm", "faultsync"], ["q0", "rm", "drop", "queue", "pop", "write", "shut", "sync2", "fault1", "faultsync"]),
-    "C17": (["queue"], ["queue"]),
-    "C18": (["pop"], ["pop", "pop3"]),
+    "C17": (["queue"], ["queue", "popqueue"]),
+    "C18": (["pop", "popprio"], ["pop", "pop3", "popqueue", "popprio"]),
 }
 
 
@@ -681,7 +681,7 @@ PARTS["C03"] = PARTS["C03"] + [bartext_part]
 PARTS["C04"] = PARTS["C04"] + [twins_part]
 PARTS["C10"] = PARTS["C10"] + [twins_part, stress_part]
 PARTS["C11"] = PARTS["C11"] + [stress_part]
-PARTS["C18"] = [sched_part, term_part]
+PARTS["C18"] = [sched_part, core_part, term_part]
 PARTS["C07"] = [fill_part]
 PARTS["C08"] = [fill_part]
 LEVEL = {"C15": "fault_enumeration"}
